@@ -17,6 +17,7 @@ def dispatch (line : String) : String :=
   | "kw" :: args => handleKw args
   | "yshape" :: args => handleYshape args
   | "parsestr" :: args => handleParseStr args
+  | "rewrite" :: args => handleRewrite args
   | _ => "bad-op"
 
 partial def loop (h : IO.FS.Stream) (out : IO.FS.Stream) : IO Unit := do
